@@ -10,7 +10,7 @@ for patch in sys.argv[1:]:
     wt = "/tmp/wt/pc_" + name
     subprocess.run(f"git -C /repo worktree remove --force {wt}", shell=True, capture_output=True)
     subprocess.run(f"git -C /repo worktree add --detach {wt} HEAD", shell=True, capture_output=True)
-    r = subprocess.run(f"git apply {patch}", shell=True, cwd=wt, capture_output=True, text=True)
+    r = subprocess.run(f"git apply {patch} || (git apply --3way {patch} && git reset -q)", shell=True, cwd=wt, capture_output=True, text=True)
     if r.returncode != 0:
         print(patch, "DOES NOT APPLY", r.stderr[:200]); subprocess.run(f"git -C /repo worktree remove --force {wt}", shell=True, capture_output=True); continue
     ev = "/tmp/pc_ev_" + name; os.makedirs(ev, exist_ok=True)
